@@ -373,3 +373,111 @@ Proof.
       exists [], cs1. rewrite app_nil_r. split; [exact N1|]. split; [constructor|].
       split; [rewrite N1; auto|]. split; [exact A1|]. intros H43. subst r. discriminate.
 Qed.
+
+(* ------------------------------------------------------------------ elements and metadata *)
+Lemma parse_elem_good sy p eo p' : l_inf (ps_lex p) = false -> parse_elem sy p = (eo, p') ->
+  l_inf (ps_lex p') = false /\ ps_num p' = ps_num p /\ same_meta p p' /\
+  (l_err (ps_lex p') = false -> l_err (ps_lex p) = false /\
+     match eo with
+     | Some e => elemb sy e = true /\ adv (ps_lex p) (ps_lex p') e
+     | None => adv (ps_lex p) (ps_lex p') []
+     end).
+Proof.
+  intros Hi. unfold parse_elem.
+  destruct (elem_loop sy (S (length (l_rest (ps_lex p)))) (ps_lex p) false []) as [e l1] eqn:Ee.
+  destruct (elem_loop_good sy _ _ _ _ _ _ Hi Ee) as (I1 & G).
+  destruct e as [|c e].
+  - destruct (lex_peek l1) as [pk l2] eqn:Ek.
+    destruct (lex_peek_good l1 pk l2 I1 Ek) as (I2 & Gk).
+    intros H; inversion H; subst eo p'. cbn [with_lex ps_lex ps_num].
+    split; [destruct (pk =? 46); exact I2|]. split; [reflexivity|]. split; [repeat split|].
+    intros He. destruct (pk =? 46); [discriminate|].
+    destruct (Gk He) as (E1 & K1 & K2 & _). destruct (G E1) as (E0 & cs & Eds & _ & A).
+    split; [exact E0|]. apply app_eq_nil_l in Eds. destruct Eds as [_ Ecs]. subst cs.
+    destruct A as [A1 A2]. apply adv_nil; [rewrite K1, A1; reflexivity | rewrite K2, A2; cbn [length]; lia].
+  - intros H; inversion H; subst eo p'. cbn [with_lex ps_lex ps_num].
+    split; [exact I1|]. split; [reflexivity|]. split; [repeat split|].
+    intros He. destruct (G He) as (E0 & cs & Eds & Dg & A). split; [exact E0|].
+    cbn [rev app] in Eds. subst cs. split; [exact Dg | exact A].
+Qed.
+
+Lemma metadata_loop_good sy fuel : forall p keep n r r' p' n', l_inf (ps_lex p) = false ->
+  metadata_loop sy fuel p keep n r = (r', p', n') ->
+  l_inf (ps_lex p') = false /\ ps_num p' = ps_num p /\ ps_is_pre p' = ps_is_pre p /\ ps_build p' = ps_build p /\
+  (l_err (ps_lex p') = false -> l_err (ps_lex p) = false /\
+     exists es cs, ps_pre p' = ps_pre p ++ (if keep then es else []) /\ Forall (fun x => elemb sy x = true) es /\
+       n' = (n + length es)%nat /\ adv (ps_lex p) (ps_lex p') cs /\ rshape r cs r' /\
+       (r' = r_eof -> r <> r_eof -> exists e es', es = e :: es' /\ cs = joind e es')).
+Proof.
+  induction fuel as [|f IH]; intros p keep n r r' p' n' Hi H; cbn [metadata_loop] in H.
+  - inversion H; subst. split; [exact Hi|]. repeat (split; [reflexivity|]). intros He. split; [exact He|].
+    exists [], []. split; [destruct keep; rewrite app_nil_r; reflexivity|]. split; [constructor|].
+    split; [cbn [length]; lia|]. split; [apply adv_nil; reflexivity|]. split; [apply rshape_same|]. intros; contradiction.
+  - destruct (parse_elem sy p) as [eo p1] eqn:Ee.
+    destruct (parse_elem_good sy p eo p1 Hi Ee) as (I1 & N1 & (M1a & M1b & M1c) & G1).
+    destruct eo as [e|].
+    2:{ inversion H; subst r' p' n'. split; [exact I1|]. split; [exact N1|]. split; [exact M1b|]. split; [exact M1c|].
+        intros He. destruct (G1 He) as (E0 & A). split; [exact E0|].
+        exists [], []. split; [rewrite M1a; destruct keep; rewrite app_nil_r; reflexivity|]. split; [constructor|].
+        split; [cbn [length]; lia|]. split; [exact A|]. split; [apply rshape_same|]. intros; contradiction. }
+    set (p2 := if keep then {| ps_lex := ps_lex p1; ps_num := ps_num p1; ps_pre := ps_pre p1 ++ [e];
+                               ps_is_pre := ps_is_pre p1; ps_build := ps_build p1 |} else p1) in H.
+    assert (P2 : ps_lex p2 = ps_lex p1 /\ ps_num p2 = ps_num p /\ ps_is_pre p2 = ps_is_pre p /\ ps_build p2 = ps_build p /\
+                 ps_pre p2 = ps_pre p ++ (if keep then [e] else [])).
+    { unfold p2. destruct keep; cbn [ps_lex ps_num ps_pre ps_is_pre ps_build]; rewrite ?M1a, ?app_nil_r; auto. }
+    clearbody p2. destruct P2 as (Q1 & Q2 & Q3 & Q4 & Q5).
+    rewrite Q1 in H. destruct (lex_next (ps_lex p1)) as [r1 l3] eqn:En.
+    destruct (lex_next_good _ _ _ I1 En) as (I3 & Gn).
+    destruct (r1 =? 46) eqn:E46.
+    + apply Z.eqb_eq in E46.
+      destruct (IH (with_lex p2 l3) keep (S n) r1 r' p' n' I3 H) as (I4 & N4 & M4b & M4c & G4).
+      cbn [with_lex ps_lex ps_num ps_pre ps_is_pre ps_build] in N4, M4b, M4c, G4.
+      split; [exact I4|]. split; [congruence|]. split; [congruence|]. split; [congruence|].
+      intros He. destruct (G4 He) as (E3 & es2 & cs2 & P4 & F4 & C4 & A4 & R4 & J4).
+      destruct (rshape_next _ _ _ I1 En E3) as (csn & An & _ & _ & Rc).
+      destruct (Gn E3) as (E1 & _). destruct (G1 E1) as (E0 & Fe & Ae).
+      split; [exact E0|].
+      assert (Ecsn : csn = [46%N]) by (apply Rc; subst r1; reflexivity). subst csn.
+      exists (e :: es2), (e ++ [46%N] ++ cs2).
+      split. { rewrite P4, Q5. destruct keep; [rewrite <- app_assoc; reflexivity | rewrite !app_nil_r; reflexivity]. }
+      split; [constructor; assumption|].
+      split; [rewrite C4; cbn [length]; lia|].
+      split; [exact (adv_trans _ _ _ _ _ Ae (adv_trans _ _ _ _ _ An A4))|].
+      split.
+      * intros H43. destruct (R4 H43) as [(_ & Hx)|(cs0 & Ec)]; [subst r1; discriminate|].
+        right. exists (e ++ [46%N] ++ cs0). rewrite Ec, !app_assoc. reflexivity.
+      * intros Hr _. destruct (J4 Hr) as (e2 & es2' & Ees & Ecs); [subst r1; discriminate|].
+        exists e, es2. split; [reflexivity|]. subst es2 cs2. unfold joind. cbn [dots flat_map app]. reflexivity.
+    + inversion H; subst r' p' n'. cbn [with_lex ps_lex ps_num ps_pre ps_is_pre ps_build].
+      split; [exact I3|]. split; [exact Q2|]. split; [exact Q3|]. split; [exact Q4|].
+      intros He. destruct (rshape_next _ _ _ I1 En He) as (csn & An & Rn & Re & _).
+      destruct (Gn He) as (E1 & _). destruct (G1 E1) as (E0 & Fe & Ae).
+      split; [exact E0|]. exists [e], (e ++ csn).
+      split; [exact Q5|]. split; [constructor; [exact Fe | constructor]|].
+      split; [cbn [length]; lia|].
+      split; [exact (adv_trans _ _ _ _ _ Ae An)|].
+      split.
+      * intros H43. destruct (Rn 0 H43) as [(_ & Hx)|(cs0 & Ec)]; [discriminate|].
+        right. exists (e ++ cs0). rewrite Ec, app_assoc. reflexivity.
+      * intros Hr _. exists e, []. split; [reflexivity|]. rewrite (Re Hr). unfold joind. reflexivity.
+Qed.
+
+Lemma parse_metadata_good sy p keep r' p' : l_inf (ps_lex p) = false -> parse_metadata sy p keep = (r', p') ->
+  l_inf (ps_lex p') = false /\ ps_num p' = ps_num p /\ ps_is_pre p' = ps_is_pre p /\ ps_build p' = ps_build p /\
+  (l_err (ps_lex p') = false -> l_err (ps_lex p) = false /\
+     exists e es cs, ps_pre p' = ps_pre p ++ (if keep then e :: es else []) /\
+       Forall (fun x => elemb sy x = true) (e :: es) /\
+       adv (ps_lex p) (ps_lex p') cs /\ rshape 0 cs r' /\ (r' = r_eof -> cs = joind e es)).
+Proof.
+  intros Hi. unfold parse_metadata.
+  destruct (metadata_loop sy (S (length (l_rest (ps_lex p)))) p keep 0 0) as [[r1 p1] n1] eqn:Em.
+  destruct (metadata_loop_good sy _ _ _ _ _ _ _ _ Hi Em) as (I1 & N1 & M1 & B1 & G).
+  intros H; inversion H; subst r' p'. clear H.
+  destruct (Nat.eqb n1 0) eqn:En.
+  - cbn. repeat (split; [assumption|]). intros; discriminate.
+  - repeat (split; [assumption|]). intros He.
+    destruct (G He) as (E0 & es & cs & P & F & C & A & R & J). split; [exact E0|].
+    destruct es as [|e es]; [subst n1; discriminate|].
+    exists e, es, cs. repeat (split; [assumption|]).
+    intros Hr. destruct (J Hr) as (e' & es' & Ees & Ecs); [discriminate|]. inversion Ees; subst. reflexivity.
+Qed.
